@@ -51,7 +51,18 @@ func (cj *CookieJar) Get(uri *fasthttp.URI) []*fasthttp.Cookie {
 		return nil
 	}
 
-	return cj.getByHostAndPath(uri.Host(), uri.Path())
+	stored := cj.getByHostAndPath(uri.Host(), uri.Path())
+	if len(stored) == 0 {
+		return nil
+	}
+
+	// Hand out copies: callers may release what they get (see above)
+	cookies := make([]*fasthttp.Cookie, len(stored))
+	for i, c := range stored {
+		cookies[i] = fasthttp.AcquireCookie()
+		cookies[i].CopyTo(c)
+	}
+	return cookies
 }
 
 // getByHostAndPath returns cookies stored for a specific host and path.
@@ -215,10 +226,6 @@ func (cj *CookieJar) parseCookiesFromResp(host, path []byte, resp *fasthttp.Resp
 			fasthttp.ReleaseCookie(parsed)
 			return
 		}
-		if len(parsed.Path()) == 0 {
-			parsed.SetPathBytes(path)
-		}
-
 		// Max-Age wins over Expires; zero or negative means "delete now"
 		expired := !parsed.Expire().Equal(fasthttp.CookieExpireUnlimited) && !parsed.Expire().After(now)
 		if maxAge, ok := cookieMaxAge(value); ok {
